@@ -236,7 +236,7 @@ def main(argv):
         else:
             if n <= 0:
                 continue
-            nsh = max(1, min(NPROC, n // 20 if n >= 40 else 1))
+            nsh = max(1, min(NPROC, n // sub.per_shard))
             per = -(-n // nsh)
             for sh in range(nsh):
                 tasks.append(dict(prop=prop, sub=sub.name, tier=tier, seed=seed * 100003 + si * 1009 + sh, n=per,
